@@ -32,7 +32,10 @@ from checks import CHECKS, WORLD_INFO   # noqa: E402
 
 LIB_SRCS = ["array", "bintree", "common", "dlist", "hash", "heap", "map", "memory",
             "rbtree", "slist", "string", "vector"]
-CORE_SRCS = ["core/core.c", "core/simheap.c"]
+CORE_SRCS = ["core/core.c", "core/simheap.c", "core/tsanwrap.c"]
+TSAN_WRAPS = "-Wl," + ",".join(f"--wrap=__tsan_atomic{b}_{op}" for b in (8, 16, 32, 64)
+                               for op in ("load", "store", "exchange", "fetch_add", "fetch_sub", "fetch_and", "fetch_or", "fetch_xor",
+                                          "compare_exchange_strong", "compare_exchange_weak"))
 WORLD_SRCS = sorted(glob.glob(os.path.join(SIM, "worlds", "*.c")))
 
 SHIPPED = ["-std=c99", "-pedantic", "-D_POSIX_C_SOURCE=199309L", "-Wno-unused-function"]
@@ -47,7 +50,7 @@ VARIANTS = {
     # work meter for C19: basic blocks of library code executed (the harness is not instrumented)
     "work": ("gcc", SHIPPED + ["-O2", "-DNDEBUG", "-g", "-fsanitize-coverage=trace-pc"], ["-O2", "-g", "-DSIM_WORK"], []),
     # race detection for C06: only /repo/src/memory.c and worlds/memc_payload.c are instrumented (see TSAN_ONLY)
-    "tsan": ("clang", SHIPPED + ["-O1", "-DNDEBUG", "-g", "-fno-omit-frame-pointer"], ["-O1", "-g", "-DSIM_TSAN"], ["-fsanitize=thread"]),
+    "tsan": ("clang", SHIPPED + ["-O1", "-DNDEBUG", "-g", "-fno-omit-frame-pointer"], ["-O1", "-g", "-DSIM_TSAN"], ["-fsanitize=thread", TSAN_WRAPS]),
 }
 TSAN_ONLY = {"memory", "worlds/memc_payload.c"}
 WRAPS = "-Wl,--wrap=malloc,--wrap=realloc,--wrap=free,--wrap=abort,--wrap=rand,--wrap=__assert_fail"
@@ -623,7 +626,7 @@ def do_check(prop, tier, seed, scale=1.0, jobs=NCPU):
                                       f"estimate: distinct hashes inside a 1/{STATE_SAMPLE[tier]} hash-prefix slice, times {STATE_SAMPLE[tier]} (bounds disk and memory in the thorough tier)"),
                 nontrivial_runs=total.nontrivial,
                 **({"distinct_interleavings": distinct_inter,
-                    "interleavings_rule": "distinct (scenario, sequence of (task, source line of the atomic step it was resumed at)) hashes over the runs of this batch"}
+                    "interleavings_rule": "distinct schedule hashes over the runs of the scheduled batches: world memc - (scenario, sequence of (task, source line of the atomic step it was resumed at)); world par - sequence of (thread, index of the operation it was inside when resumed) with preemption at basic-block granularity"}
                    if n_inter else {}),
                 fault_and_reach_probes=probes,
                 required_probes_missing=missing,
@@ -682,10 +685,16 @@ def do_determinism(n, seed):
                     if (b["world"], b["mode"], v) in seen:
                         continue
                     seen.add((b["world"], b["mode"], v))
-                    plan = [(v, 0, n)]
+                    # batches of a few enormous runs (huge containers, gigabytes of real memory) are compared on a few runs only
+                    m = min(n, max(1, min(b["quick"] or b["thorough"], b["thorough"])))
+                    if b.get("min_mem_gib"):
+                        m = 1 if mem_available_gib() >= b["min_mem_gib"] else 0
+                    if m == 0:
+                        continue
+                    plan = [(v, 0, m)]
                     r1 = run_batch(bins, b["world"], b["mode"], seed, plan, tmpdir, keep_hashes=True, jobs=16)
                     r2 = run_batch(bins, b["world"], b["mode"], seed, plan, tmpdir, keep_hashes=True, jobs=3)
-                    r3 = run_batch(bins, b["world"], b["mode"], seed, plan, tmpdir, keep_hashes=True, jobs=1) if n <= 400 else r1
+                    r3 = run_batch(bins, b["world"], b["mode"], seed, plan, tmpdir, keep_hashes=True, jobs=1) if n <= 400 and not b.get("min_mem_gib") else r1
                     diff = [k for k in r1.hashes if r1.hashes[k] != r2.hashes.get(k) or r1.hashes[k] != r3.hashes.get(k)]
                     total += len(r1.hashes)
                     bad += len(diff)
